@@ -40,13 +40,17 @@ class Prop:
         self.level = level
         self.parts = parts
         self.rule = rule
-        self.assumptions = assumptions
+        self.assumptions = list(assumptions) + [WORLD_KNOBS]
         self.level_text = level_text
         self.level_note = level_note or TRUSTED
         self.technique = technique
         self.design_ref = design_ref
         self.expected_probes = list(expected_probes)
 
+
+WORLD_KNOBS = ('generated worlds and calls vary per run (swarm): objects, classes, values and interfaces that are false in a boolean context, '
+               'values that coincide with defaults, interned / fresh / str-subclass / wide / missing names, argument shapes (list, tuple, iterator, '
+               'generator), call styles (positional, keyword, omitted defaults), one world in twelve big and one in forty huge; see DESIGN.md section 12')
 
 REAL_STUB = ('real: all of zope.interface (Python modules and the C extension compiled from /repo working tree, '
              'both PURE_PYTHON=0 and =1); stubs: user-side objects only (factories, subscribers, hooks, components, '
